@@ -224,6 +224,18 @@ theorem straight_complete (d : Nat) (bO bC : Node → Node → Bool) (nodes : Li
       (c.nodeLeft = true ↔ n.r.centre d < sg.inter d pos) :=
   AdaptaVerif.Lemmas.TopoConsGen.straight_complete d bO bC nodes segs n sg hn hsg hnc pos hpos hvis hcorner
 
+-- non-vacuity of `straight_complete` (the `_open` / `_close` forms are instantiated the same way inside
+-- `endnode_blind_spot_control`): the theorem applied in the control scene to node 1 at its closing scan line 34
+example : ∃ c, (wSg, c) ∈ consClosed 0 idLt idLt [w0, w1', w2] [wSg] ∧ c.node = w1' ∧ c.pos = 34 ∧
+    (c.nodeLeft = true ↔ w1'.r.centre 0 < wSg.inter 0 34) :=
+  straight_complete 0 idLt idLt [w0, w1', w2] [wSg] w1' wSg (by simp) (by simp) (by decide +kernel) 34
+    (Or.inr (by decide +kernel))
+    (by
+      intro m hm
+      simp only [List.mem_cons, List.not_mem_nil, or_false] at hm
+      rcases hm with rfl | rfl | rfl <;> decide +kernel)
+    (by decide +kernel)
+
 /-- **As-coded exception 1 (finding C13-endnode-visibility).** If the scan-line neighbour `m` of `n` has its centre beyond the segment's crossing point and the scan line strictly inside its extent, NO constraint between `sg` and `n` is created at this event - whatever `m` is, in particular when `m` is the segment's own end node, inside which the segment runs and which hides nothing. -/
 theorem endnode_blind_spot (d : Nat) (bO : Node → Node → Bool) (nodes : List Node) (segs : List Seg)
     (n m : Node) (sg : Seg)
@@ -432,6 +444,26 @@ theorem solve_step_visible_pair_safe (d : Nat) (bO bC : Node → Node → Bool)
       0 ≤ gap d (sg.movedTo d x') (n.movedTo d x') q b :=
   AdaptaVerif.Lemmas.TopoConsStep.solve_step_visible_pair_safe d bO bC nodes segs extra ini fin hini n sg hn hsg hnc hspanLo hspanHi hvisLo hvisHi hcornerLo hcornerHi b hbLo hbHi
 
+-- non-vacuity of `solve_step_visible_pair_safe` (its hypotheses contain those of `solve_step_keeps_generated_sides`,
+-- and its proof goes through `solve_step_node_stays_off_segment` / `node_stays_off_segment`): the theorem applied to the
+-- control scene, node 2 dragged to x = 100 (the step is cut at α = 6/13), node 1 stays right (b = false) of the edge
+example :
+    let x' := moveStep ((consClosed 0 idLt idLt [w0, w1', w2] [wSg]).map (fun x => triOf x.1 x.2) ++ []) ctlIni ctlFin
+    ∀ q, (w1'.movedTo 0 x').r.lo (conj 0) ≤ q → q ≤ (w1'.movedTo 0 x').r.hi (conj 0) →
+      0 ≤ gap 0 (wSg.movedTo 0 x') (w1'.movedTo 0 x') q false :=
+  solve_step_visible_pair_safe 0 idLt idLt [w0, w1', w2] [wSg] [] ctlIni ctlFin
+    (by unfold Feasible; decide +kernel) w1' wSg (by simp) (by simp) (by decide +kernel)
+    (by decide +kernel) (by decide +kernel)
+    (by
+      intro m hm
+      simp only [List.mem_cons, List.not_mem_nil, or_false] at hm
+      rcases hm with rfl | rfl | rfl <;> decide +kernel)
+    (by
+      intro m hm
+      simp only [List.mem_cons, List.not_mem_nil, or_false] at hm
+      rcases hm with rfl | rfl | rfl <;> decide +kernel)
+    (by decide +kernel) (by decide +kernel) false (by decide +kernel) (by decide +kernel)
+
 /-! ### bend constraints -/
 
 /-- Every interior EdgePoint whose two incident segments are not both parallel to the scan line has its BendConstraint (`createBend_none_iff` says when `createBend` gives none). -/
@@ -471,6 +503,19 @@ theorem bend_slack_zero_iff_collinear (d idx : Nat) (u v w : EPt) (b : BC)
         ((w.movedTo d x).pos d - (u.movedTo d x).pos d) *
           ((v.movedTo d x).pos (conj d) - (u.movedTo d x).pos (conj d)) = 0 :=
   AdaptaVerif.Lemmas.TopoConsBend.bend_slack_zero_iff_collinear d idx u v w b h hr x
+
+-- joint non-vacuity of the hypotheses of `bend_complete`, `bend_sound`, `bend_slack_is_offset`,
+-- `bend_slack_zero_iff_collinear`: a path centre(n0) -> TR corner of n1 -> centre(n2) whose in-segment is the longer one in
+-- the scan direction (`rev = false`); its only BendConstraint is the one `createBend` makes at index 1
+example :
+    let n0 : Node := ⟨0, ⟨0, 10, 0, 10⟩⟩
+    let n1 : Node := ⟨1, ⟨20, 30, 40, 50⟩⟩
+    let n2 : Node := ⟨2, ⟨50, 60, 20, 30⟩⟩
+    let pts : List EPt := [⟨n0, 4⟩, ⟨n1, 0⟩, ⟨n2, 4⟩]
+    let b : BC := { idx := 1, leftOf := true, rev := false, u := 0, v := 1, w := 2, p := 4 / 9, g := 20 / 9 }
+    pts[0]? = some ⟨n0, 4⟩ ∧ pts[0 + 1]? = some ⟨n1, 0⟩ ∧ pts[0 + 2]? = some ⟨n2, 4⟩ ∧
+    createBend 0 (0 + 1) ⟨n0, 4⟩ ⟨n1, 0⟩ ⟨n2, 4⟩ = some b ∧ b.rev = false ∧ bendCons 0 pts = [b] := by
+  decide +kernel
 
 /-! ### the two rewrites -/
 
